@@ -64,6 +64,68 @@ def auto_discharge(site, fn, T, panic_abort):
     return None
 
 
+def family(ctx, top, kinds=("coroutine", "closure"), include_top=False):
+    """Bodies that belong to `top`: its async body, and transitively every closure / async block CREATED in them
+    (aggregate statements) - which, after virtual inlining, includes the closures of inlined helpers - plus the
+    children by definition site. Used instead of parent links so that extracting a helper never hides a closure."""
+    F = ctx.F
+    root = top
+    while root.parent is not None:
+        root = root.parent
+    seen = []
+    ids = set()
+
+    def add(g):
+        if g is not None and id(g) not in ids:
+            ids.add(id(g))
+            seen.append(g)
+            return True
+        return False
+    st = []
+    for g in [top, F.body_of(top) if top.kind in ("fn", "method") else top]:
+        if add(g):
+            st.append(g)
+    for g in F.fns:
+        if g.parent is not None:
+            r = g
+            while r.parent is not None:
+                r = r.parent
+            if r is root and add(g):
+                st.append(g)
+    while st:
+        b = st.pop()
+        for blk in b.blocks:
+            for s in blk["s"]:
+                if s["k"] == "assign" and s["r"]["k"] == "agg" and s["r"].get("ak") in ("closure", "coroutine", "coroutine_closure"):
+                    g = F.by_path.get(s["r"].get("def"))
+                    if add(g):
+                        st.append(g)
+    out = [g for g in seen if g.kind in kinds and g is not top]
+    return ([top] + out) if include_top else out
+
+
+def ret_truths(ctx, W, g, val):
+    """Truth values (True / False / None = undecided) a bool-returning body may return under the valuation."""
+    from engine import query as Q
+    T = ctx.T(g)
+    RL = Q.ret_locals(g)
+    out = set()
+    for bi in W.reachable(val):
+        b = g.blocks[bi]
+        for s in b["s"]:
+            if s["k"] == "assign" and not s["p"].get("pr") and s["p"]["l"] in RL:
+                r = s["r"]
+                if r["k"] == "use":
+                    pl = r["o"].get("m") or r["o"].get("c")
+                    if pl is not None and not pl.get("pr") and pl["l"] in RL:
+                        continue
+                out.add(W.truth(T.rvalue(r), val, set()))
+        t = b["t"]
+        if t["k"] == "call" and not t["dest"].get("pr") and t["dest"]["l"] in RL and "decl" in t["f"]:
+            out.add(W.truth(T.call_term(t), val, set()))
+    return out
+
+
 def pnames(fn, ty_substr=None, index=None):
     """Names of the parameters of the user-level function of body `fn` whose type contains `ty_substr` (or at
     position `index`). Rules identify a parameter by its type/position - never by its (renameable) name."""
